@@ -12,6 +12,7 @@ Exit visibility is forced from outside so that every model trace is replayable o
   onInput    the stand-in closes stdout and stays alive until the next line arrives, swallows it, exits
   race       nothing is forced (small random delays): both outcomes are legitimate; oracle only
 """
+import gc
 import json
 import os
 import re
@@ -33,7 +34,8 @@ logging.getLogger("delphin.ace").setLevel(logging.CRITICAL + 1)   # "Could not r
 FAKE = os.path.join(os.path.dirname(os.path.abspath(__file__)), "standins", "fakeace.py")
 STEP_TIMEOUT = 6.0
 REFUSAL = "PyDelphin could not validate the input and refused to send it to ACE"
-BASE_TEXTS = ["incomplete output from ACE", ":error", ":p-input", ":p-tokens", ":results", ":chart", ":surface"]
+BASE_TEXTS = ["incomplete output from ACE", ":error", ":p-input", ":p-tokens", ":results", ":chart", ":surface",
+              REFUSAL]
 STD_KEYS = {"NOTES", "WARNINGS", "ERRORS", "run", "input", "surface", "results", "tokens", "keys", "task"}
 DECODE_ERRORS = ("TypeError", "ValueError", "AttributeError")
 FRONTS = [("parser", True), ("parser", False), ("transferer", False), ("generator", True), ("generator", False)]
@@ -41,6 +43,36 @@ FRONTS = [("parser", True), ("parser", False), ("transferer", False), ("generato
 
 def cps(s):
     return [ord(c) for c in s]
+
+
+# what the stand-in answers to `-V` (case["ace_version"]; None = the stand-in's own 0.9.30)
+VERSION_BANNERS = {"unparsable": "ACE build of today, version unknown", "none": ""}
+
+
+def version_tuple(case):
+    """what `ace._ace_version` makes of the banner, restated: digits and dots after 'ACE version ', else 0.9.0"""
+    v = case.get("ace_version")
+    if v is None:
+        return (0, 9, 30)
+    if v in VERSION_BANNERS:
+        return (0, 9, 0)
+    return tuple(int(x) for x in v.split("."))
+
+
+def requested_tsdbinfo(case):
+    """the option given to the front end (None: not given at all, i.e. the default True)"""
+    if "tsdbinfo" in case:
+        return case["tsdbinfo"]
+    return bool(case["tsdb"])
+
+
+def protocol_consistent(case):
+    """case["tsdb"] is the protocol IN EFFECT (what the stand-in answers in); it must be what the requested
+    option and the reported version lead to"""
+    want = requested_tsdbinfo(case) is not False and version_tuple(case) >= (0, 9, 24)
+    if case["front"] == "transferer":
+        return True
+    return bool(case["tsdb"]) == want
 
 
 # --------------------------------------------------------------------------------------------
@@ -60,6 +92,10 @@ def sx_result(front, tok, r, ex):
         fs.append('(:derivation . "(d %s %d)")' % (tok, r))
     if front != "generator" or ex.get("genmrs"):
         fs.append('(:mrs . "[ %s \\"q\\" %d%s ]")' % (tok, r, big(ex) if front != "generator" else ""))
+    if ex.get("tree"):
+        fs.append('(:tree . "t %s %d")' % (tok, r))
+    if ex.get("score"):
+        fs.append("(:score . -%d)" % (r + 1))
     nf = ex.get("flags", 0)
     if nf:
         fs.append("(:flags (%s))" % " ".join("(:f%d%s . %d)" % (k, tok, 10 * r + k) for k in range(nf)))
@@ -74,7 +110,7 @@ def sx_parts(front, tok, nres, ex):
     if ex.get("pre"):
         parts.append('(:pre%s . %d)' % (tok, 7))
     parts.append("(:results . (%s))" % " ".join(sx_result(front, tok, r, ex) for r in range(nres)))
-    parts.append("(:readings . %d)" % nres)
+    parts.append("(:readings . %d)" % (nres if nres or not ex.get("score") else -1))
     if ex.get("post"):
         parts.append('(:comment%s . "%s done")' % (tok, tok))
     return parts
@@ -115,6 +151,8 @@ def answer_text(case, item):
             out.append("[ %s %d%s ] ; (d %s %d)\n" % (tok, r, big(ex), tok, r))
         if ex.get("tailnote"):
             out.append("NOTE: %s afterthought\n" % tok)
+        if ex.get("resent"):
+            out.append("SENT: %s once more\n" % tok)      # a second surface line: the last one is reported
         out.append("\n\n")
     elif front == "transferer":
         for r in range(nres):
@@ -157,6 +195,10 @@ def expected_results(case, item):
                 d["derivation"] = "(d %s %d)" % (tok, r)
             if front != "generator" or ex.get("genmrs"):
                 d["mrs"] = '[ %s "q" %d%s ]' % (tok, r, big(ex) if front != "generator" else "")
+            if ex.get("tree"):
+                d["tree"] = "t %s %d" % (tok, r)
+            if ex.get("score"):
+                d["score"] = -(r + 1)
             if ex.get("flags", 0):
                 d["flags"] = [{"p": [":f%d%s" % (k, tok), 10 * r + k]} for k in range(ex["flags"])]
         elif front == "parser":
@@ -226,8 +268,8 @@ def tokenize(r, reg):
     i, n = 0, len(r)
     while i < n:
         c = r[i]
-        if c.isdigit():
-            j = i
+        if c.isdigit() or (c == "-" and i + 1 < n and r[i + 1].isdigit()):
+            j = i + 1
             while j < n and r[j].isdigit():
                 j += 1
             if j == n:
@@ -255,7 +297,8 @@ def tokenize(r, reg):
         else:
             m = SYM_RE.match(r, i)
             if m is None:
-                raise ValueError("harness tokenizer: unexpected %r" % r[i:i + 10])
+                toks.append("bad")      # no symbol here: util._SExpr_parse_symbol raises ValueError
+                break
             toks.append("." if m.group(0) == "." else {"t": reg.id(m.group(0))})
             i = m.end()
     return toks
@@ -329,8 +372,13 @@ def build_model(case):
                    "closeStdin": bool(it["die"].get("close_stdin"))}
         items.append({"text": cps(it["text"]), "out": lines, "die": die})
     st, sm = case.get("show", [False, False])
-    req = {"op": "run", "front": case["front"], "tsdb": bool(tsdb), "showTree": bool(st), "showMrs": bool(sm),
-           "runnote": bool(case.get("runnote", True)), "exitOk": case.get("exit_ok", 0), "items": items, "orc": []}
+    ti = requested_tsdbinfo(case)
+    user = list(case.get("cmdargs", [])) + (["--show-realization-trees"] if st else []) \
+        + (["--show-realization-mrses"] if sm else [])
+    req = {"op": "run", "front": case["front"], "tsdbinfo": True if ti is None else bool(ti),
+           "version": list(version_tuple(case)), "cmdargs": user, "showTree": bool(st), "showMrs": bool(sm),
+           "runnote": bool(case.get("runnote", True)), "exitOk": case.get("exit_ok", 0), "items": items, "orc": [],
+           "processItem": bool(case.get("process_item"))}
     return req, reg
 
 
@@ -434,6 +482,14 @@ def observe(r):
          "extra": [[k, jsonable(v)] for k, v in r.items() if k not in STD_KEYS],
          "tokens": jsonable(r.get("tokens")), "keys": jsonable(r.get("keys")), "task": r.get("task"),
          "is_response": isinstance(r, interface.Response)}
+    if o["is_response"] and isinstance(r.get("results"), list):
+        # the accessors of interface.Response give the same results, in the same order
+        try:
+            o["accessors_ok"] = ([dict(x) for x in r.results()] == r["results"]
+                                 and all(dict(r.result(i)) == r["results"][i] for i in range(len(r["results"])))
+                                 and len(r.results()) == len(r["results"]))
+        except Exception:      # noqa: BLE001
+            o["accessors_ok"] = False
     return o
 
 
@@ -450,23 +506,73 @@ def run_case(case, workdir):
         st, sm = case.get("show", [False, False])
         cmdargs = (["--show-realization-trees"] if st else []) + (["--show-realization-mrses"] if sm else [])
 
-        def make():
-            if front == "parser":
-                return ace.ACEParser("fake.dat", executable=FAKE, env=env, tsdbinfo=bool(case["tsdb"]))
-            if front == "transferer":
-                return ace.ACETransferer("fake.dat", executable=FAKE, env=env)
-            return ace.ACEGenerator("fake.dat", cmdargs=cmdargs, executable=FAKE, env=env,
-                                    tsdbinfo=bool(case["tsdb"]))
+        via = case.get("via") or "interact"
+        user_args = list(case.get("cmdargs", []))
+        exe = FAKE
+        if case.get("ace_version") is not None:
+            # a wrapper that answers `-V` itself and is the stand-in otherwise (`-V` is asked without `env`)
+            v = case["ace_version"]
+            exe = os.path.join(d, "ace")
+            with open(exe, "w", encoding="utf-8") as f:
+                f.write("#!/bin/sh\nif [ \"$1\" = \"-V\" ]; then echo '%s'; exit 0; fi\nexec '%s' \"$@\"\n"
+                        % (VERSION_BANNERS.get(v, "ACE version %s" % v), FAKE))
+            os.chmod(exe, 0o755)
+        if not protocol_consistent(case):
+            raise RuntimeError("C19 generator: protocol in effect inconsistent with option and version")
+        kw = {"executable": exe, "env": env}
+        if front != "transferer" and requested_tsdbinfo(case) is not None:
+            kw["tsdbinfo"] = bool(requested_tsdbinfo(case))
+        if cmdargs or user_args:
+            kw["cmdargs"] = user_args + cmdargs
+        gen = None
+        p = None
 
-        how, p = call_with_timeout(make)
-        if how != "ok":
-            return {"init": how if how == "hang" else type(p).__name__, "steps": [], "log": read_log(d)}
+        def kwargs():
+            k = dict(kw)      # the constructor appends to the list it is given
+            if "cmdargs" in k:
+                k["cmdargs"] = list(k["cmdargs"])
+            return k
+        if via in ("iterable", "single"):
+            fn = {("parser", "iterable"): ace.parse_from_iterable, ("parser", "single"): ace.parse,
+                  ("transferer", "iterable"): ace.transfer_from_iterable, ("transferer", "single"): ace.transfer,
+                  ("generator", "iterable"): ace.generate_from_iterable, ("generator", "single"): ace.generate}[front, via]
+        if via == "iterable":
+            feed = {"k": 0}
+
+            def data():
+                # lazily: the wrapper asks for the next input only when the caller asks for the next response
+                while feed["k"] < len(case["items"]):
+                    feed["k"] += 1
+                    yield case["items"][feed["k"] - 1]["text"]
+            gen = fn("fake.dat", data(), **kwargs())
+        elif via == "single":
+            pass
+        else:
+            def make():
+                if front == "parser":
+                    return ace.ACEParser("fake.dat", **kwargs())
+                if front == "transferer":
+                    return ace.ACETransferer("fake.dat", **kwargs())
+                return ace.ACEGenerator("fake.dat", **kwargs())
+            how, p = call_with_timeout(make)
+            if how != "ok":
+                return {"init": how if how == "hang" else type(p).__name__, "steps": [], "log": read_log(d)}
+            if via == "with":
+                p.__enter__()
         dead = False
         for idx, it in enumerate(case["items"]):
             if dead:
                 steps.append({"aborted": True})
                 continue
-            if case.get("process_item"):
+            if via == "iterable":
+                how, r = call_with_timeout(lambda: next(gen))
+                if p is None and gen.gi_frame is not None:
+                    # the processor object the wrapper created (a local of the suspended generator)
+                    p = [v for v in gen.gi_frame.f_locals.values() if isinstance(v, ace.ACEProcess)][0]
+            elif via == "single":
+                how, r = call_with_timeout(lambda: fn("fake.dat", it["text"], **kwargs()))
+                gc.collect()
+            elif case.get("process_item"):
                 how, r = call_with_timeout(lambda: p.process_item(it["text"], keys={"i-id": idx}))
             else:
                 how, r = call_with_timeout(lambda: p.interact(it["text"]))
@@ -479,6 +585,10 @@ def run_case(case, workdir):
                 steps.append({"err": type(r).__name__})
             else:
                 steps.append(observe(r))
+                if via == "single":
+                    # the wrapper's generator is dropped when `parse` returns: close() has run by now
+                    steps[-1]["closed_after"] = steps[-1].pop("closed")
+                    steps[-1]["closed"] = None
             if it.get("die") and policy_of(it) == "afterItem" and it.get("sync"):
                 # wait until the process that read this input has exited, without reaping it
                 for ev in read_log(d):
@@ -489,8 +599,17 @@ def run_case(case, workdir):
                             pass
             if it.get("pause"):
                 time.sleep(it["pause"] / 1000.0)
-        if not dead:
-            how, v = call_with_timeout(p.close)
+        if not dead and via != "single" and p is not None:
+            if via == "iterable":
+                how, v = call_with_timeout(lambda: next(gen, "exhausted"))
+                if how == "ok":
+                    v = p._p.returncode if v == "exhausted" else {"err": "not exhausted"}
+            elif via == "with":
+                how, v = call_with_timeout(lambda: p.__exit__(None, None, None))
+                if how == "ok":
+                    v = p._p.returncode if v is False else {"err": "__exit__ swallows exceptions"}
+            else:
+                how, v = call_with_timeout(p.close)
             final["close"] = v if how == "ok" else ({"hang": True} if how == "hang" else {"err": type(v).__name__})
             infos = []
             for ri in p.run_infos:
@@ -498,13 +617,17 @@ def run_case(case, workdir):
                 infos.append({"id": ri.get("run-id"), "ended": end is not None,
                               "end_ok": end is None or (hasattr(end, "year") and start is not None and end >= start),
                               "note": ri.get("pid-tag"),
-                              "app_ok": str(ri.get("application", "")).startswith("ACE 0.9.30 via PyDelphin")})
+                              "app_ok": str(ri.get("application", "")).startswith(
+                                  "ACE %s via PyDelphin" % ".".join(map(str, version_tuple(case)))),
+                              "env": ri.get("environment"),
+                              "fields_ok": all(k in ri for k in ("run-id", "application", "environment", "user",
+                                                                 "host", "os", "start"))})
             final["runs"] = infos
             final["distinct_runs"] = len({id(x) for x in p.run_infos}) == len(p.run_infos)
         log = read_log(d)
         return {"steps": steps, "close": final["close"], "runs": final["runs"],
                 "distinct_runs": final.get("distinct_runs"), "log": [
-                    {k: v for k, v in ev.items() if k in ("k", "ev", "tok", "line", "mode", "swallowed", "helper_w")}
+                    {k: v for k, v in ev.items() if k in ("k", "ev", "tok", "line", "mode", "swallowed", "helper_w", "argv")}
                     for ev in log]}
     finally:
         kill_all(d)
@@ -578,16 +701,20 @@ def ok_text(front, idx, rng):
     if front == "parser":
         return rng.choice(["%s dogs bark", "  %s leading", "%s trailing  \t", "\t%s [ brackets ] too ", "%s",
                            "\u00a0%s dogs\u3000", "\u2003 %s\u2028", "%s\u2003inner\u00a0blanks \x85", "\x1c%s bark\x1f\u2029",
-                           " \u202f%s\u205fx\u1680 \t", "%s \u3000\u3000"]) % tok
+                           " \u202f%s\u205fx\u1680 \t", "%s \u3000\u3000",
+                           "%s dogs bark\n", "%s dogs bark\r\n", "\n\t%s bark \n\n", "\r\n%s\x0b\x0c\n"]
+                          + BREAK_TEXTS["parser"]) % tok
     return rng.choice(["[ LTOP: h0 %s [ x ] ]", "junk before [ %s ] and after", "[ %s ] tail", "  [ %s ]  ",
                        "pre [ %s [ a ] [ b ] ]", "[%s]", "x ] [ %s ]", "junk [ %s [ a ] ] tail",
                        "\u00a0[ %s\u3000x ]\u2003", "\uff3b y \uff3d [ %s ] \u3010 z \u3011", "[ %s \u2028 x ]\x85",
-                       "j [ [ b ] %s ] t"]) % tok
+                       "j [ [ b ] %s ] t", "[ %s x ]\n", "[ %s x ]\r\n", "[ %s [ y ] ] \n\n", "pre [ %s ]\n"]
+                      + BREAK_TEXTS["other"]) % tok
 
 
 class C19(Check):
     pid = "C19"
     level = "proof"
+    props_modules = ["Verif.C19.Props", "Verif.C19.Props2"]
     quick_cases = 265
     thorough_cases = 1700
     search_budget = {"quick": 150, "thorough": 2000}
@@ -599,7 +726,8 @@ class C19(Check):
         "pipes, buffering, reaping and signal delivery are outside the model: the model has one oracle bit per "
         "observation of a dying child; the harness forces three exit schedules on the real code and checks "
         "only the property itself (not the model) when the race is left free",
-        "input texts are ASCII; one input per line (inputs containing a line break are a separate class)",
+        "the processor reads its input line by line, splitting at LF only (as the stand-in does: os.read + split "
+        "at b'\\n'); VT, FF, U+0085, U+2028/9 inside an input are ordinary characters of its one line",
     ]
     trusted_base = ["harness/standins/fakeace.py follows the scenario it is given (its log is the ground truth "
                     "for what the processor read and wrote)",
@@ -751,7 +879,7 @@ class C19(Check):
         if case.get("op") == "validate":
             fn = {"parser": lambda s: isinstance(s, str) and s.strip()}.get(case["front"], ace._possible_mrs)
             v = fn(case["s"])
-            return cps(v.rstrip()) if v else None
+            return cps(re.sub(r"[\r\n]+", " ", v.rstrip())) if v else None
         hit = getattr(self, "_cache", {}).pop(id(case), None)
         if hit is not None and hit[0] is case:
             return hit[1]
@@ -780,8 +908,14 @@ class C19(Check):
                 continue
             e = {"input": cps(o["input"]) if isinstance(o["input"], str) else o["input"],
                  "skipped": o["skipped"], "run": o["run"]}
+            if case.get("process_item"):
+                e["task"] = o.get("task")
             if o["skipped"]:
-                e.update(notes=[], warnings=[], errors=[], surface=None, results={"lines": []}, wrote=None,
+                # the fabricated response: the refusal note, `SKIP: <datum>` as surface, nothing else
+                e.update(notes=[reg.get(t) for t in o["notes"]], warnings=[reg.get(t) for t in o["warnings"]],
+                         errors=[reg.get(t) for t in o["errors"]],
+                         surface={"input": cps(o["surface"])} if isinstance(o["surface"], str) else o["surface"],
+                         results={"lines": []} if o["results"] == [] else {"impl": o["results"]}, wrote=None,
                          served=False, eof=False)
                 steps.append(e)
                 continue
@@ -823,11 +957,12 @@ class C19(Check):
                          and it.get("tok") and it["tok"] in ev["swallowed"]]
             e["served"] = bool(reads)
             e["wrote"] = cps(reads[0]["line"]) if reads else (cps(swallowed[0]["swallowed"]) if swallowed else None)
-            e["eof"] = bool(o.get("closed"))
+            e["eof"] = None if o.get("closed") is None else bool(o["closed"])
             steps.append(e)
         runs = None if res.get("runs") is None else [{"id": r["id"], "ended": r["ended"], "note": r["note"]}
                                                       for r in res["runs"]]
-        return {"steps": steps, "close": res.get("close"), "runs": runs}
+        argvs = [ev.get("argv") for ev in res["log"] if ev.get("ev") == "start"]
+        return {"steps": steps, "close": res.get("close"), "runs": runs, "argvs": argvs}
 
     @staticmethod
     def _line_result(front, text):
@@ -863,6 +998,12 @@ class C19(Check):
                 e.pop("wrote", None)
             if a != e:
                 diffs.append({"step": k, "model": a, "impl": e})
+        for a in exp.get("argvs", []):
+            if a != ans.get("argv"):
+                diffs.append({"argv": {"model": ans.get("argv"), "impl": a}})
+                break
+        if case.get("via") == "single":
+            return diffs or None      # the wrapper keeps the processor to itself: no close() value, no run_infos
         if ans.get("close") != exp.get("close"):
             diffs.append({"close": {"model": ans.get("close"), "impl": exp.get("close")}})
         if ans.get("runs") != exp.get("runs"):
@@ -919,6 +1060,8 @@ class C19(Check):
                 fail("an interaction returns something that is not a Response", step=idx)
             if o["input"] != it["text"]:
                 fail("the response records its own input", step=idx, got=o["input"])
+            if o.get("accessors_ok") is False:
+                fail("results()/result(i) of the response give its results in order", step=idx)
             if case.get("process_item"):
                 if o.get("keys") != {"i-id": idx}:
                     fail("process_item keeps the item keys", step=idx, got=o.get("keys"))
@@ -959,13 +1102,17 @@ class C19(Check):
                 if len(reads[tok]) > 1:
                     fail("an input is read by the processor at most once", step=idx, times=len(reads[tok]))
                 line = reads[tok][0][2]
-                if line.strip() == "" or line not in it["text"] or line != line.rstrip("\n"):
+
+                def one_line(t):
+                    # line breaks inside an input go out as blanks (one per run of CR/LF)
+                    return " ".join(x for x in re.split(r"[\r\n]+", t))
+                if line.strip() == "" or line not in one_line(it["text"]) or "\n" in line or "\r" in line:
                     fail("the processor receives (a part of) the input text on one line", step=idx, line=line)
-                if front == "parser" and line != it["text"].strip():
+                if front == "parser" and line != one_line(it["text"].strip()):
                     fail("the parser's processor receives exactly the input without its surrounding white space",
                          step=idx, line=line)
                 if front != "parser" and not (line.startswith("[") and line.endswith("]")) \
-                        and line != it["text"].rstrip():
+                        and line != one_line(it["text"].rstrip()):
                     fail("the processor receives the MRS part of the input", step=idx, line=line)
             k_read = reads[tok][0][1] if tok and reads.get(tok) else None
             # restart after a failure: a new processor and a new run record
@@ -1044,8 +1191,41 @@ class C19(Check):
             if ev.get("ev") == "read" and (ev.get("tok") is None or ev["tok"] not in sent_toks):
                 fail("the processor reads only the lines of inputs that were sent", line=ev.get("line"))
                 break
+        # the command line of every started processor
+        st_, sm_ = case.get("show", [False, False])
+        tsdb_ = bool(case["tsdb"]) and front != "transferer"
+        argvs = [ev.get("argv") for ev in log if ev.get("ev") == "start" and ev.get("argv") is not None]
+        if argvs:
+            a0 = argvs[0]
+            if any(a != a0 for a in argvs):
+                fail("a restarted processor is started with the same command line as the first", argvs=argvs)
+            if a0[:2] != ["-g", "fake.dat"]:
+                fail("the processor is started on the grammar", argv=a0)
+            if ("--tsdb-stdout" in a0) != tsdb_:
+                fail("the processor is started with the output protocol the front end decodes", argv=a0)
+            if ("--tsdb-notes" in a0) != (front == "generator" or version_tuple(case) >= (0, 9, 14)):
+                fail("the processor is started with the options its version understands", argv=a0)
+            if ("-e" in a0) != (front == "generator"):
+                fail("the processor is started in the mode of the front end", argv=a0)
+            for opt, on in (("--show-realization-trees", st_), ("--show-realization-mrses", sm_)):
+                if (opt in a0) != bool(on):
+                    fail("the processor is started with the requested options", argv=a0, option=opt)
+            ua = list(case.get("cmdargs", []))
+            if ua and not any(a0[i:i + len(ua)] == ua for i in range(len(a0))):
+                fail("the processor is started with the requested options", argv=a0, option=ua)
+        last_k = max([ev["k"] for ev in log if ev.get("ev") == "start"], default=None)
+        if case.get("via") == "single":
+            for idx, o in enumerate(steps):
+                # (a processor replaced inside the interaction leaves the response with the record of the old one;
+                # the record that close() stamps is then out of reach of the caller)
+                if "err" not in o and "hang" not in o and "aborted" not in o and o.get("run") == last_k \
+                        and not o.get("closed_after"):
+                    fail("closing records the run's end time", step=idx)
+                if "hang" not in o and "aborted" not in o and last_k is not None and not any(
+                        ev.get("ev") in ("eof", "die") and ev.get("k") == last_k for ev in log):
+                    fail("closing ends the processor", step=idx)
         # run records and close
-        if all("aborted" not in o and "hang" not in o for o in steps):
+        if all("aborted" not in o and "hang" not in o for o in steps) and case.get("via") != "single":
             runs = res.get("runs")
             starts = len([ev for ev in log if ev.get("ev") == "start"])
             if runs is None:
@@ -1064,6 +1244,15 @@ class C19(Check):
                         fail("a run record holds the run information of its own processor", run=r)
                     if not r["app_ok"]:
                         fail("a run record names the application", run=r)
+                    if not r.get("fields_ok", True):
+                        fail("a run record has its start-up fields", run=r)
+                    if r.get("env") is not None and argvs and (
+                            any(w not in argvs[0] for w in r["env"].split())
+                            or ("--tsdb-stdout" in r["env"].split()) != tsdb_):
+                        fail("a run record holds the options its processor was started with", run=r)
+                if last_k is not None and not any(ev.get("ev") in ("eof", "die") and ev.get("k") == last_k
+                                                  for ev in log):
+                    fail("closing ends the processor")
             want_close = case.get("exit_ok", 0)
             last = None
             for ev in log:
@@ -1174,6 +1363,10 @@ class C19(Check):
         cs.extend(unshaped_cases())
         cs.extend(free_race_cases())
         cs.extend(keeper_cases())
+        cs.extend(via_cases())
+        cs.extend(version_cases())
+        cs.extend(coverage_cases())
+        cs.extend(linebreak_cases())
         if tier == "thorough":
             # every byte position of one answer per configuration
             for front, tsdb, show in configs:
@@ -1196,13 +1389,29 @@ class C19(Check):
         case = {"kind": "random", "front": front, "tsdb": tsdb, "show": show, "items": [],
                 "runnote": rng.random() < 0.85, "exit_ok": rng.choice([0, 0, 2, 11]),
                 "process_item": rng.random() < 0.4}
+        if rng.random() < 0.25:
+            ver = rng.choice(VERSIONS)
+            case["ace_version"] = ver
+            eff = version_tuple(case) >= (0, 9, 24)
+            if front != "transferer":
+                case["tsdbinfo"] = rng.choice([None, True, True, False])
+                case["tsdb"] = tsdb = bool(eff and case["tsdbinfo"] is not False)
+            if tsdb:
+                case["show"] = show = [False, False]
+        via = rng.choice(["interact", "interact", "with", "iterable", "iterable"])
+        if via != "interact":
+            case["via"] = via
+            case["process_item"] = False
+        ua = rng.choice([[], [], [], ["-n", "3"], ["--timeout", "30"], ["-1", "-p"]])
+        if ua:
+            case["cmdargs"] = ua
         n = rng.choice([1, 2, 3, 3, 4, 4, 5, 6] if tier == "quick" else [1, 2, 3, 4, 5, 6, 7, 8])
         free = rng.random() < 0.12
         for idx in range(n):
             r = rng.random()
             ex = {}
             for key, p in (("note", .2), ("warning", .1), ("error", .1), ("pinput", .3), ("pre", .15), ("post", .2),
-                           ("genmrs", .3), ("wsline", .1), ("tailnote", .2)):
+                           ("genmrs", .3), ("wsline", .1), ("tailnote", .2), ("tree", .25), ("score", .25), ("resent", .2)):
                 if rng.random() < p:
                     ex[key] = True
             if rng.random() < 0.3:
@@ -1281,7 +1490,7 @@ class C19(Check):
             return None
         if not any(it.get("tok") for it in case["items"]):
             return None
-        return json.dumps([case["front"], case["tsdb"], case.get("show"),
+        return json.dumps([case["front"], case["tsdb"], case.get("show"), case.get("via"),
                            [[it.get("kind"), it.get("cut"), policy_of(it), it.get("nres")] for it in case["items"]]])
 
     def stats(self, case, res, counters):
@@ -1295,8 +1504,18 @@ class C19(Check):
                                 "+show" if any(case.get("show", [])) else ""))
         inc("len:%d" % len(case["items"]))
         inc("free-race" if is_free(case) else "forced")
-        if case.get("process_item"):
-            inc("via:process_item")
+        inc("via:" + ("process_item" if case.get("process_item") else case.get("via") or "interact"))
+        if case.get("cmdargs"):
+            inc("cmdargs:user-options")
+        inc("ace-version:%s/tsdbinfo=%s->%s" % (case.get("ace_version") or "0.9.30(stand-in)", requested_tsdbinfo(case),
+                                             "tsdb" if case["tsdb"] and case["front"] != "transferer" else "default"))
+        for it in case["items"]:
+            t = it["text"]
+            if "\n" in t or "\r" in t:
+                core = t.strip("\r\n")
+                inc("input:line-break-" + ("inner" if ("\n" in core or "\r" in core) else "outer-only"))
+                if re.search(r"[\r\n]{2,}", core):
+                    inc("input:line-break-run")
         for it in case["items"]:
             n = len(it["text"])
             inc("inlen:" + ("<100" if n < 100 else "<4095" if n < 4095 else "4095-4097" if n <= 4097 else
@@ -1537,12 +1756,212 @@ def keeper_cases():
     return cs
 
 
+VIA_ARGS = [["-n", "5"], ["--timeout", "60"], ["-1"], [], ["--max-words", "40", "-p"]]
+NL_TEXTS = {"parser": ["%s dogs bark\n", "\n %s dogs bark\r\n", "%s\n\n"],
+            "other": ["[ %s x ]\n", "pre [ %s [ y ] ]\r\n", "[ %s ] \n\n"]}
+
+
+def via_cases():
+    """the other ways into the same code: the context manager (`with … as p`, close through __exit__), the
+    module-level wrappers `parse/transfer/generate_from_iterable` (one processor for a lazily consumed iterable,
+    closed when the iterable is exhausted) and `parse/transfer/generate` (one processor per call, closed when the
+    call returns); user options passed through `cmdargs`; inputs that end (or, for the parser, begin) with a line
+    break"""
+    cs = []
+    for ci, (front, tsdb) in enumerate(FRONTS):
+        base = {"front": front, "tsdb": tsdb, "show": [False, False]}
+        alen = len(answer_text(base, mk_item(1, front, nres=2)))
+        nl = NL_TEXTS["parser" if front == "parser" else "other"]
+        skip = SKIP_TEXTS["parser"][ci + 1] if front == "parser" else SKIP_TEXTS["other"][ci + 1].replace("TOK", "i0x")
+
+        def case(kind, items, via, **kw):
+            c = {"kind": kind, "front": front, "tsdb": tsdb, "show": [False, False], "items": items, "runnote": True,
+                 "exit_ok": 0, "process_item": False, "via": via}
+            if VIA_ARGS[ci]:
+                c["cmdargs"] = VIA_ARGS[ci]
+            c.update(kw)
+            return c
+        for via in ("with", "iterable"):
+            items = [mk_item(0, front, "skip", text=skip),
+                     mk_item(1, front, "die", nres=2, die=die_spec(code=5, delay_exit=20), cut=alen // 2, sync=True,
+                             text=nl[0] % "i1x"),
+                     mk_item(2, front, nres=2, text=nl[1] % "i2x"),
+                     mk_item(3, front, "die", die=die_spec("exit_first")),
+                     mk_item(4, front, text=nl[2] % "i4x")]
+            if via == "iterable":
+                items.append(mk_item(5, front, "die", die=die_spec(code=7, delay_exit=20), cut=0, sync=True))
+            cs.append(case("via-" + via, items, via, exit_ok=(3 if via == "with" else 0)))
+        singles = [mk_item(0, front, nres=2, text=nl[ci % 3] % "i0x"),
+                   mk_item(0, front, "skip", text=skip),
+                   mk_item(0, front, "die", nres=2, die=die_spec(code=5, delay_exit=20), cut=alen // 2, sync=True),
+                   mk_item(0, front, "die", die=die_spec(code=6, delay_exit=20), cut=0, sync=True),
+                   mk_item(0, front, "die", die=die_spec("exit_first"))]
+        for it in singles:
+            cs.append(case("via-single", [it], "single"))
+    return cs
+
+
+VERSIONS = ["0.9.13", "0.9.23", "0.9.24", "0.9.31", "unparsable", "0.9", "1.0", "0.9.24.1", "0.9.14"]
+
+
+def version_cases():
+    """the protocol IN EFFECT is not the option: front ends built with default options (tsdbinfo not given, i.e.
+    True) or tsdbinfo=True against a processor whose `-V` answer is below / at / above the 0.9.24 threshold or does
+    not parse; every exit pattern (in the middle of a result line, after a complete answer — seen at once or at
+    the next input —, before answering, on the last input) and unacceptable inputs in each such session"""
+    cs = []
+    for vi, ver in enumerate(VERSIONS):
+        eff = version_tuple({"ace_version": ver}) >= (0, 9, 24)
+        fronts = ("parser", "transferer", "generator") if vi < 5 else (("parser", "generator", "transferer")[vi % 3],)
+        for fi, front in enumerate(fronts):
+            tsdb = eff and front != "transferer"
+            show = [True, True] if (front == "generator" and not tsdb and vi % 2 == 0) else [False, False]
+            base = {"front": front, "tsdb": tsdb, "show": show}
+            full = answer_text(base, mk_item(1, front, nres=2))
+            # inside the first result line (default protocol) / inside the results list (tsdb)
+            probe = "i1x 0" if not tsdb else "(:result-id . 1)"
+            cut = full.index(probe) + 3
+            skip = SKIP_TEXTS["parser"][vi + 1] if front == "parser" else SKIP_TEXTS["other"][vi + 1].replace("TOK", "i3x")
+            items = [mk_item(0, front, nres=2),
+                     mk_item(1, front, "die", nres=2, die=die_spec(code=5, delay_exit=20), cut=cut, sync=True),
+                     mk_item(2, front, nres=1),
+                     mk_item(3, front, "skip", text=skip),
+                     mk_item(4, front, "die", die=die_spec("exit_first")),
+                     mk_item(5, front, nres=2, ex={"note": True}),
+                     mk_item(6, front, "die", die=die_spec(delay_exit=20), cut=0, sync=True),
+                     mk_item(7, front),
+                     mk_item(8, front, "die", die=die_spec("linger_stdin", code=4)),
+                     mk_item(9, front), mk_item(10, front),
+                     mk_item(11, front, "die", nres=2, die=die_spec(code=9, delay_exit=20),
+                             cut=(full.index("\n") + 2 if not tsdb else len(full) // 3), sync=True)]
+            c = {"kind": "version", "front": front, "tsdb": tsdb, "show": show, "items": items, "runnote": True,
+                 "exit_ok": 0, "process_item": (vi + fi) % 2 == 0, "ace_version": ver}
+            if front != "transferer":
+                c["tsdbinfo"] = None if (vi + fi) % 2 == 0 else True      # not given (default) / given as True
+            if (vi + fi) % 3 == 0:
+                c["process_item"] = False
+                c["via"] = "iterable"
+            cs.append(c)
+        # requested off: the default protocol whatever the version
+        if vi in (2, 3):
+            front = ("parser", "generator")[vi % 2]
+            cs.append({"kind": "version", "front": front, "tsdb": False, "show": [False, False], "runnote": True,
+                       "exit_ok": 0, "process_item": False, "ace_version": ver, "tsdbinfo": False,
+                       "items": [mk_item(0, front), mk_item(1, front, "die", nres=2, die=die_spec(delay_exit=20),
+                                                           cut=7, sync=True), mk_item(2, front)]})
+    return cs
+
+
+def coverage_cases():
+    """branches of the anchored code no other block reaches (work list from tools/anchor_coverage.py): a run note
+    that carries `:application` (skipped by `_read_run_info`) arriving in the middle of a session; stray characters
+    inside an S-expression (`ValueError` out of util.SExpr.parse, caught by `_sexpr_data`); negative integers and
+    other string-valued result fields in the tsdb answer, complete and cut"""
+    cs = []
+
+    def case(kind, front, tsdb, items, **kw):
+        c = {"kind": kind, "front": front, "tsdb": tsdb, "show": [False, False], "items": items, "runnote": True,
+             "exit_ok": 0, "process_item": False}
+        c.update(kw)
+        return c
+    # run note with :application, before the answer of the first input of a run
+    note = 'NOTE: tsdb run: (:application . "someone else") (:pid-tag . 0) (:extra . "x")\n'
+    for front, tsdb in FRONTS:
+        base = {"front": front, "tsdb": tsdb, "show": [False, False]}
+        it = mk_item(0, front, nres=1)
+        it.update(raw=note + answer_text(base, it), raw_results=expected_results(base, it), kind="runnote-mid")
+        cs.append(case("runnote-application", front, tsdb, [it, mk_item(1, front, nres=2)]))
+    # stray characters inside / after an S-expression
+    strays = ['(:results . ()) (:comment . [x])', '(:results . ()) (:readings . 0) (:a . {1})', '(:a ; b) (:results . ())',
+              '(:results . ()) (:readings . 0) \\']
+    for front in ("parser", "generator"):
+        for k, raw in enumerate(strays):
+            it = mk_item(1, front)
+            it.update(raw=raw + ("\n\n\n" if front == "parser" else "\n"), raw_results=[], kind="stray")
+            cs.append(case("stray-characters", front, True, [mk_item(0, front), it, mk_item(2, front, nres=2)],
+                           process_item=k % 2 == 1))
+    # two surface lines in one answer (the last one is reported), complete and cut between them
+    base = {"front": "parser", "tsdb": False, "show": [False, False]}
+    full = answer_text(base, mk_item(1, "parser", nres=1, ex={"resent": True}))
+    cs.append(case("two-surfaces", "parser", False, [mk_item(0, "parser", nres=2, ex={"resent": True}),
+                                                    mk_item(1, "parser", "die", nres=1, ex={"resent": True},
+                                                            die=die_spec(delay_exit=20), cut=full.index("SENT: i1x once") + 8,
+                                                            sync=True),
+                                                    mk_item(2, "parser", nres=0, ex={"resent": True})]))
+    # negative integers, an extra string field; complete and cut right inside them
+    for front in ("parser", "generator"):
+        base = {"front": front, "tsdb": True, "show": [False, False]}
+        ex = {"tree": True, "score": True}
+        full = answer_text(base, mk_item(1, front, nres=2, ex=dict(ex)))
+        cuts = [None, full.index("(:score . -") + 11, full.index("(:score . -") + 12, full.index('(:tree . "') + 12]
+        for cut in cuts:
+            it = mk_item(1, front, "ok" if cut is None else "die", nres=2, ex=dict(ex))
+            if cut is not None:
+                it.update(die=die_spec(delay_exit=20), cut=cut, sync=True)
+            cs.append(case("tsdb-fields", front, True, [mk_item(0, front, nres=0, ex={"score": True}), it,
+                                                         mk_item(2, front)]))
+    return cs
+
+
+BREAK_TEXTS = {
+    "parser": ["%s dogs\nbark", "%s\r\ndogs\r\nbark", "\n\n%s dogs\n\n\nbark\n", "%s\rdogs", "\r\n %s \n\r\n\r x\r",
+               "%s a\n\tb", "%s\x0bv\x0cf\x85n\u2028l\u2029p\nq", "\r%s\r\r\ry"],
+    "other": ["[ LTOP: h0\n  %s\n  [ x ] ]", "[ %s\r\n [ y ]\r\n]", "\n[ %s ]", "pre\n[ %s\n\n\n[ a ] ]\npost",
+              "[ %s\r[ b ] ]\r\n", "\r\n[ %s ]\n\ntail", "[ %s\x0bv\x85n\u2028l\n]", "x\n[ %s\r\r]"],
+}
+BREAK_SKIPS = {"parser": ["\n\r\n", "\r", "\n \n\t\r\n"], "other": ["no\nmrs TOK", "]\n[ TOK", "TOK\r\n"]}
+
+
+def linebreak_cases():
+    """F60 (repaired in 0806f59): inputs with \\n, \\r, \\r\\n leading, inner, trailing and several in a row - parser
+    sentences and multi-line MRSs, both protocols - are written as ONE line; crossed with every exit pattern.  The
+    other line-boundary characters (VT, FF, NEL, LS, PS) are ordinary characters of that line."""
+    cs = []
+    for ci, (front, tsdb) in enumerate(FRONTS):
+        fam = "parser" if front == "parser" else "other"
+        texts = BREAK_TEXTS[fam]
+        base = {"front": front, "tsdb": tsdb, "show": [False, False]}
+        alen = len(answer_text(base, mk_item(1, front, nres=2)))
+
+        def t(k, idx):
+            return texts[(k + ci) % len(texts)] % ("i%dx" % idx)
+
+        def sk(k, idx):
+            return BREAK_SKIPS[fam][(k + ci) % 3].replace("TOK", "i%dx" % idx)
+        items = [mk_item(0, front, nres=2, text=t(0, 0)),
+                 mk_item(1, front, "die", nres=2, die=die_spec(code=5, delay_exit=20), cut=alen // 2, sync=True, text=t(1, 1)),
+                 mk_item(2, front, nres=1, text=t(2, 2)),
+                 mk_item(3, front, "skip", text=sk(0, 3)),
+                 mk_item(4, front, "die", die=die_spec("exit_first"), text=t(3, 4)),
+                 mk_item(5, front, nres=2, text=t(4, 5)),
+                 mk_item(6, front, "die", die=die_spec(delay_exit=20), cut=0, sync=True, text=t(5, 6)),
+                 mk_item(7, front, text=t(6, 7)),
+                 mk_item(8, front, "skip", text=sk(1, 8)),
+                 mk_item(9, front, "die", die=die_spec("linger_stdin", code=4), text=t(7, 9)),
+                 mk_item(10, front, text=t(0, 10)), mk_item(11, front, nres=3, text=t(1, 11)),
+                 mk_item(12, front, "die", die=die_spec(close_stdin=True, delay_exit=150), text=t(2, 12)),
+                 mk_item(13, front, text=t(3, 13)),
+                 mk_item(14, front, "die", nres=2, die=die_spec(code=9, delay_exit=20), sync=True, text=t(4, 14))]
+        c = {"kind": "line-breaks", "front": front, "tsdb": tsdb, "show": [False, False], "items": items,
+             "runnote": True, "exit_ok": 0, "process_item": ci % 2 == 0}
+        if ci in (1, 3):
+            c["process_item"] = False
+            c["via"] = "iterable"
+        cs.append(c)
+        # the same texts without any failure: every response carries the results of its own input
+        cs.append({"kind": "line-breaks", "front": front, "tsdb": tsdb, "show": [False, False], "runnote": True,
+                   "exit_ok": 0, "process_item": False,
+                   "items": [mk_item(k, front, nres=1 + k % 3, text=texts[k] % ("i%dx" % k)) for k in range(len(texts))]})
+    return cs
+
+
 def validate_cases(rng, n):
-    alpha = ["[", "]", "[", "]", " ", "\t", "a", "b ", "x", "\x0b", "\r", " ", "\u00a0", "\u3000", "\x85", "\u2028", "\x1c",
+    alpha = ["[", "]", "[", "]", " ", "\t", "a", "b ", "x", "\x0b", "\r", "\n", "\r\n", "\n", " ", "\u00a0", "\u3000", "\x85", "\u2028", "\x1c",
              "\x1f", "\u2003", "\uff3b", "\uff3d", "\u200b", "\ufeff"]
     seen = set()
     fixed = ["", " ", "[]", "[ ]", "a[b]c", "[a", "a]", "][", "] [ ]", "[[]]", "[[]", "[]]", " [a] ", "x [a] [b]",
              "\u00a0", "\u2003\u3000", "\x85", "\x1c\x1d\x1e\x1f", "\u200b", "\ufeff", "\u00a0a\u3000", "\uff3ba\uff3d", "\u00a0[a]\u2028",
+             "a\nb", "a\r\n\r\nb\n", "\na", "[a\n[b]\n]", "\n[a]", "x\n[a\r]\ny", "[a]\n", "a\rb\r", "\r\n", "[a\x0bb\x85c\u2028]\n",
              "[a] tail", "pre [a]", "x [a [b] c] y", "x [[a] b] y", "pre [a] ", "\t[a]\t", "a", " a ", "[a][b]", "[ [ ] ] x", "x [ [ ] ]"]
     for s in fixed:
         for front in ("parser", "generator"):
